@@ -12,6 +12,7 @@ import (
 	"github.com/expr-lang/expr"
 	"github.com/expr-lang/expr/vm"
 	"github.com/rulego/streamsql/utils/cast"
+	"github.com/rulego/streamsql/utils/fieldpath"
 )
 
 // exprLangBuiltinNames 是 expr-lang/expr 自带、且与 StreamSQL 函数不冲突的内置函数名，
@@ -89,6 +90,9 @@ func (bridge *ExprBridge) RegisterStreamSQLFunctionsToExpr() []expr.Option {
 		))
 	}
 
+	// Helper used by the IS [NOT] NULL preprocessing for nested operands
+	options = append(options, expr.Function(nestedFieldFuncName, nestedFieldOrNil))
+
 	return options
 }
 
@@ -138,6 +142,9 @@ func (bridge *ExprBridge) CreateEnhancedExprEnvironment(data map[string]any) map
 	env["like_match"] = func(text, pattern string) bool {
 		return bridge.matchesLikePattern(text, pattern)
 	}
+
+	// Helper used by the IS [NOT] NULL preprocessing for nested operands
+	env[nestedFieldFuncName] = nestedFieldOrNil
 
 	return env
 }
@@ -552,31 +559,94 @@ func (bridge *ExprBridge) PreprocessIsNullExpression(expression string) (string,
 	result = reComplexNull.ReplaceAllString(result, "is_null($1)")
 
 	// 匹配简单字段的 IS NOT NULL 模式 (必须在复杂表达式之后处理)
-	isNotNullPattern := `(\w+(?:\.\w+)*)\s+IS\s+NOT\s+NULL`
+	// The operand is a column or a nested path: a, a.b, arr[0], a.b[1].c, m['k']
+	isNotNullPattern := `(` + isNullOperandPattern + `)\s+IS\s+NOT\s+NULL`
 	reNotNull, err := regexp.Compile(isNotNullPattern)
 	if err != nil {
 		return result, err
 	}
 
 	// 替换简单字段的IS NOT NULL
-	result = reNotNull.ReplaceAllString(result, "$1 != nil")
+	result = reNotNull.ReplaceAllStringFunc(result, func(match string) string {
+		return nullableOperand(reNotNull.FindStringSubmatch(match)[1]) + " != nil"
+	})
 
 	// 匹配简单字段的 IS NULL 模式
-	isNullPattern := `(\w+(?:\.\w+)*)\s+IS\s+NULL`
+	isNullPattern := `(` + isNullOperandPattern + `)\s+IS\s+NULL`
 	reNull, err := regexp.Compile(isNullPattern)
 	if err != nil {
 		return result, err
 	}
 
 	// 再替换简单字段的IS NULL
-	// A nested field is absent, hence NULL, when one of its parents is missing
-	// or NULL; optional chaining (a?.b) yields nil there instead of failing.
 	result = reNull.ReplaceAllStringFunc(result, func(match string) string {
-		operand := reNull.FindStringSubmatch(match)[1]
-		return strings.ReplaceAll(operand, ".", "?.") + " == nil"
+		return nullableOperand(reNull.FindStringSubmatch(match)[1]) + " == nil"
 	})
 
 	return result, nil
+}
+
+// isNullOperandPattern matches the operand of IS [NOT] NULL: an identifier
+// followed by any number of .field, [index] or ['key'] accessors. The SQL
+// parser hands the condition over with blanks around brackets and dots
+// ("am [ 0 ] . x"), so blanks are allowed between the parts.
+const isNullOperandPattern = `\w+(?:\s*\.\s*\w+|\s*\[\s*(?:-?\d+|'[^']*'|"[^"]*")\s*\])*`
+
+// nestedFieldFuncName is the expr-lang helper emitted for nested IS [NOT] NULL
+// operands, see nullableOperand.
+const nestedFieldFuncName = "__nested_field_or_nil"
+
+// nullableOperand renders the operand of IS [NOT] NULL for expr-lang. A plain
+// column stays as it is (a missing column already evaluates to nil). A nested
+// path such as a.b, arr[0] or am[0].x is absent, hence NULL, when a parent is
+// missing, NULL, not a container, or the index is out of range; expr-lang fails
+// on such rows (also with optional chaining), so the path below the top-level
+// column is resolved by the helper, which yields nil there instead.
+func nullableOperand(operand string) string {
+	operand = removeUnquotedBlanks(operand)
+	i := strings.IndexAny(operand, ".[")
+	if i <= 0 || (operand[0] >= '0' && operand[0] <= '9') {
+		return operand
+	}
+	return nestedFieldFuncName + "(" + operand[:i] + ", " + strconv.Quote(operand[i:]) + ")"
+}
+
+// removeUnquotedBlanks drops the blanks of a field path except those inside a
+// quoted map key.
+func removeUnquotedBlanks(path string) string {
+	var sb strings.Builder
+	quote := rune(0)
+	for _, c := range path {
+		if quote != 0 {
+			if c == quote {
+				quote = 0
+			}
+		} else if c == '\'' || c == '"' {
+			quote = c
+		} else if c == ' ' || c == '\t' || c == '\n' || c == '\r' {
+			continue
+		}
+		sb.WriteRune(c)
+	}
+	return sb.String()
+}
+
+// nestedFieldOrNil implements nestedFieldFuncName: params are the value of the
+// top-level column and the rest of the path (".b[0].c"). It returns the nested
+// value, or nil when the path does not lead to a value.
+func nestedFieldOrNil(params ...any) (any, error) {
+	if len(params) != 2 {
+		return nil, fmt.Errorf("%s requires 2 parameters", nestedFieldFuncName)
+	}
+	path, ok := params[1].(string)
+	if !ok {
+		return nil, fmt.Errorf("%s requires a string path", nestedFieldFuncName)
+	}
+	value, found := fieldpath.GetNestedField(map[string]any{"v": params[0]}, "v"+path)
+	if !found {
+		return nil, nil
+	}
+	return value, nil
 }
 
 // ContainsBacktickIdentifiers 检查表达式是否包含反引号标识符
